@@ -29,20 +29,25 @@ class EigContract:
         P = 'N5Eigen22SelfAdjointEigenSolverINS_6MatrixIdLin1ELin1ELi0ELin1ELin1EEEE'
         return {'re:^@_Z' + P + 'C[12]IS2_EERKNS_9EigenBaseIT_EEi': ctor, 're:^@_Z' + P + 'D[12]Ev': dtor}
 
+def members(r): return list(range(r[0], r[1] + 1)) if len(r) == 2 else list(r[2])
+NAMES = ['A-A', 'B-B', 'A-B']
 def imc_case(ck, mod, parsed, n, ranges, variant, TO, found, rank_def=False):
+    hand = any(len(r) == 3 for r in ranges)
     Pm = frame(n, variant + 1); W = frame(n, variant)
     s_ = [z3.Real('s%d' % i) for i in range(n)]
     if rank_def: s_[n - 1] = F(0)
     A = sym_mul(sym_mul(Pm, [[(s_[i] if i == j else F(0)) for j in range(n)] for i in range(n)]), transpose(W))
     bx = [z3.Real('bx%d' % i) for i in range(n)]; by = [z3.Real('by%d' % i) for i in range(n)]; reg = z3.Real('reg')
-    ec = EigContract(W); mism = []; CAP = n + 1; nr = len(ranges)
+    ec = EigContract(W); mism = []; CAP = 2 * n + 1; nr = len(ranges)
     def body(it):
         FIO.reset()
         for v in s_:
             if is_sym(v): it.assume(v >= 0)
         it.assume(reg >= F(1, 10**9))
         pa = alloc_doubles(it, 'A', [A[i][j] for i in range(n) for j in range(n)]); px = alloc_doubles(it, 'bx', bx); py = alloc_doubles(it, 'by', by)
-        rb = alloc_i64(it, 'rb', [r[0] for r in ranges]); re_ = alloc_i64(it, 're', [r[1] for r in ranges])
+        if hand:
+            FIO.fs['i.idx'] = [list(('%s %s' % (NAMES[k], r[1])).encode()) for k, r in enumerate(ranges)]; rb = symx.NULL; re_ = symx.NULL
+        else: rb = alloc_i64(it, 'rb', [r[0] for r in ranges]); re_ = alloc_i64(it, 're', [r[1] for r in ranges])
         ox = it.alloc(8 * nr * CAP, 'ox'); oy = it.alloc(8 * nr * CAP, 'oy'); of = it.alloc(nr * CAP, 'of'); cnt = it.alloc(8 * nr, 'cnt'); it.zerofill(cnt, 8 * nr)
         try: rc = sgn64(it.call('@h_imc_solve', [pa, n, n, px, py, reg, nr, rb, re_, ox, oy, of, cnt, CAP]))
         except ContractMismatch as e: mism.append(str(e)); return None
@@ -63,17 +68,18 @@ def imc_case(ck, mod, parsed, n, ranges, variant, TO, found, rank_def=False):
         found.append((label + ': ' + mism[0], meta)); return
     # oracle: x with (A^T A + reg I) x = -A^T b ; stated through the defining equation on the values read back from the tables
     q_eq = []; q_split = []
-    covered = sorted(set(i for (b, e) in ranges for i in range(b, e + 1)))
+    covered = sorted(set(i for r_ in ranges for i in members(r_)))
     for it, r in res:
         pc = list(it.pc); rc, c, X, Y, Fl = r
         if rc != 0: q_split.append((pc, [z3.BoolVal(True)])); continue
         goal = []; xs = {}
-        for k, (b, e) in enumerate(ranges):
-            if c[k] != e - b + 1: goal = None; break
+        for k, r_ in enumerate(ranges):
+            mem = members(r_)
+            if c[k] != len(mem): goal = None; break
             for j in range(c[k]):
-                goal.append(R(X[k][j]) == bx[b - 1 + j])
+                goal.append(R(X[k][j]) == bx[mem[j] - 1])
                 goal.append(z3.BoolVal(Fl[k][j] == ord('i')) if not is_sym(Fl[k][j]) else Fl[k][j] == ord('i'))
-                xs.setdefault(b - 1 + j, []).append(R(Y[k][j]))
+                xs.setdefault(mem[j] - 1, []).append(R(Y[k][j]))
         if goal is None: q_split.append((pc, [z3.BoolVal(True)])); continue
         for i, l in xs.items():
             for y in l[1:]: goal.append(y == l[0])
@@ -95,8 +101,8 @@ def check_imc(ck, tier, mod, parsed, found):
                        'group matrices are A = P diag(s) W^T with arbitrary singular values s_i >= 0 and P, W from a list of rational orthogonal frames (non-symmetric A); regularisation r >= 1e-9 (below 1e-12 the program switches to a pseudo-inverse and says so)',
                        'input files are produced by the library writers and the output tables are read by Table::Load inside the harness (the text channel is the C08 file model)']
     validate_imc(ck, mod, parsed)
-    cases = [(2, [(1, 1), (2, 2)], 0, False), (3, [(1, 2), (3, 3)], 0, False), (2, [(1, 2)], 1, True)]
-    if tier != 'quick': cases += [(3, [(1, 1), (2, 2), (3, 3)], 1, False), (3, [(1, 3)], 2, True), (4, [(1, 2), (3, 4)], 0, False), (3, [(2, 3), (1, 2)], 0, False)]
+    cases = [(2, [(1, 1), (2, 2)], 0, False), (3, [(1, 2), (3, 3)], 0, False), (2, [(1, 2)], 1, True), (3, [('text', '1, 3', [1, 3]), ('text', '2:3', [2, 3])], 0, False)]
+    if tier != 'quick': cases += [(3, [('text', '3:-1:1', [3, 2, 1])], 1, False), (3, [('text', '1,2:3', [1, 2, 3]), ('text', '2', [2])], 2, False), (3, [(1, 1), (2, 2), (3, 3)], 1, False), (3, [(1, 3)], 2, True), (4, [(1, 2), (3, 4)], 0, False), (3, [(2, 3), (1, 2)], 0, False)]
     for (n, ranges, v, rd) in cases: imc_case(ck, mod, parsed, n, ranges, v, TO, found, rd)
     ck.bounds['imc_solve'] = '(size, index ranges, frame variant, rank-deficient) in %s' % cases
 
@@ -109,12 +115,14 @@ extern "C" long h_imc_solve(const double* a, long rows, long cols, const double*
 int main(int argc, char** argv) {
   char tmpl[] = "/tmp/verif-c06-XXXXXX"; if (!mkdtemp(tmpl) || chdir(tmpl)) return 3;
   long n = atol(argv[1]), nr = atol(argv[2]); int p = 3; double reg = atof(argv[p++]);
-  double a[64], bx[8], by[8], ox[64], oy[64]; char of[64]; long rb[4], re[4], cnt[4] = {0, 0, 0, 0};
+  double a[64], bx[8], by[8], ox[64], oy[64]; char of[64]; long rb[4] = {0, 0, 0, 0}, re[4] = {0, 0, 0, 0}, cnt[4] = {0, 0, 0, 0};
   for (long i = 0; i < n * n; i++) a[i] = atof(argv[p++]);
   for (long i = 0; i < n; i++) bx[i] = atof(argv[p++]);
   for (long i = 0; i < n; i++) by[i] = atof(argv[p++]);
-  for (long r = 0; r < nr; r++) { rb[r] = atol(argv[p++]); re[r] = atol(argv[p++]); }
-  long rc = h_imc_solve(a, n, n, bx, by, reg, nr, rb, re, ox, oy, of, cnt, n + 1);
+  bool hand = false;
+  if (p < argc && std::string(argv[p]) == "text") { hand = true; p++; FILE* f = fopen("i.idx", "w"); for (long r = 0; r < nr; r++) fprintf(f, "%s\n", argv[p++]); fclose(f); }
+  else for (long r = 0; r < nr; r++) { rb[r] = atol(argv[p++]); re[r] = atol(argv[p++]); }
+  long rc = h_imc_solve(a, n, n, bx, by, reg, nr, hand ? nullptr : rb, hand ? nullptr : re, ox, oy, of, cnt, n + 1);
   printf("%ld", rc);
   for (long r = 0; r < nr && rc == 0; r++) { printf(" | %ld :", cnt[r]); for (long j = 0; j < cnt[r] && j < n + 1; j++) printf(" %.17g %.17g %c", ox[r * (n + 1) + j], oy[r * (n + 1) + j], of[r * (n + 1) + j]); }
   printf("\n");
@@ -134,7 +142,7 @@ def instance(meta):
 def native_tables(n, ranges, A, bx, by, reg):
     drv = os.path.join(common.workdir(), 'c06i_driver.cc'); open(drv, 'w').write(NATIVE_MAIN)
     binp = common.native_build([common.harness_path(C06.HARNESS), drv], 'C06i_native', extra=['-I' + common.REPO, '-I/usr/include/eigen3'], defs=['VERIF_NATIVE'], libs=['-lboost_program_options'] + common.votca_libs())
-    args = [str(n), str(len(ranges)), repr(float(reg))] + [repr(float(x)) for r in A for x in r] + [repr(float(x)) for x in bx] + [repr(float(x)) for x in by] + [str(t) for r in ranges for t in r]
+    args = [str(n), str(len(ranges)), repr(float(reg))] + [repr(float(x)) for r in A for x in r] + [repr(float(x)) for x in bx] + [repr(float(x)) for x in by] + ((['text'] + ['%s %s' % (NAMES[k], r[1]) for k, r in enumerate(ranges)]) if any(len(r) == 3 for r in ranges) else [str(t) for r in ranges for t in r])
     rc, so, se = common.run_native(binp, args=args); line = so.strip().split('\n')[-1] if so.strip() else ''
     parts = line.split('|')
     if not parts or parts[0].strip() != '0': return None, 'native run returned %r %s' % (line[:100], se[:200])
@@ -185,11 +193,11 @@ def replay_native(meta):
                 f = Mx[r][c] / Mx[c][c]; Mx[r] = [a - f * b for a, b in zip(Mx[r], Mx[c])]; rhs[r] -= f * rhs[c]
     xe = [float(rhs[i] / Mx[i][i]) for i in range(n)]
     bad = []
-    for k, (b, e) in enumerate(ranges):
-        cnt, rows = tabs[k]
-        if cnt != e - b + 1: bad.append('table %d has %d rows, range is %d:%d' % (k, cnt, b, e)); continue
-        for j in range(e - b + 1):
-            x, y, fl = rows[j]
-            if abs(x - float(bx[b - 1 + j])) > 1e-9 or abs(y - xe[b - 1 + j]) > 1e-6 * max(1, abs(xe[b - 1 + j])) or fl != 'i':
-                bad.append('table %d row %d: (%g, %g, %s), expected (%g, %g, i)' % (k, j, x, y, fl, float(bx[b - 1 + j]), xe[b - 1 + j]))
+    for k, r_ in enumerate(ranges):
+        cnt, rows = tabs[k]; mem = members(r_)
+        if cnt != len(mem) or len(rows) < len(mem): bad.append('table %d has %d rows, its range denotes %s' % (k, cnt, mem)); continue
+        for j in range(len(mem)):
+            x, y, fl = rows[j]; t = mem[j] - 1
+            if abs(x - float(bx[t])) > 1e-9 or abs(y - xe[t]) > 1e-6 * max(1, abs(xe[t])) or fl != 'i':
+                bad.append('table %d row %d: (%g, %g, %s), expected (%g, %g, i)' % (k, j, x, y, fl, float(bx[t]), xe[t]))
     return bool(bad), 'native csg_imc_solve code on A = P diag(%s) W^T, r = 0.5: %s' % ([str(x) for x in s_], '; '.join(bad[:3]) or 'agrees with the exact solution %s' % xe)
